@@ -213,4 +213,24 @@ PROPS = {
         'trusted': [],
         'extra': [{'name': 'disjunction', 'kind': 'bounded', 'script': 'bounded/disjunction.py', 'timeout': 1500}],
     },
+    'C16': {
+        'level': 'other',
+        'claim': 'Proved on the real code: the request loop body of compute_path_with_disjunction (fixed mode; one and both '
+                 'directions) propagates on deep copies - the receivers it writes are not the network\'s - and its frame is '
+                 'the request\'s blocking_reason plus the three result lists; compare_reqs (no disjunction) answers True exactly '
+                 'when every deciding field (end points, transponder, mode, route constraints, spacing, powers, channel count, '
+                 'band, bidir) is equal, so only identical requests are merged. The statement as a whole (same figures alone / '
+                 'first / last / after saturating, blocked or failing requests; designed settings unchanged) is a bounded '
+                 'stand-in through the real planning() pipeline.',
+        'level_note': 'NOT an unbounded proof of batch independence: element propagation is behind the propagate() call-site '
+                      'summary; the automatic-mode branch and spectrum assignment are not under contract here; bounded: ring3, '
+                      'mesh4[, ring4, full4] with in-line amplifiers, 11 request kinds, all orders of three triples, mixed and '
+                      'random batches, every element setting compared before/after',
+        'trusted': ['propagate call-site summary', 'find_reversed_path ghost summary', 'copy.deepcopy (fresh object graph)'],
+        'extra': [{'name': 'batch', 'kind': 'bounded', 'script': 'bounded/batch.py', 'timeout': 1500}],
+    },
+    'C17': {'level': 'other', 'claim': 'uc', 'level_note': 'uc', 'trusted': [], 'not_applicable': 'under construction'},
+    'C18': {'level': 'other', 'claim': 'uc', 'level_note': 'uc', 'trusted': [], 'not_applicable': 'under construction'},
+    'C19': {'level': 'other', 'claim': 'uc', 'level_note': 'uc', 'trusted': [], 'not_applicable': 'under construction'},
+    'C20': {'level': 'other', 'claim': 'uc', 'level_note': 'uc', 'trusted': [], 'not_applicable': 'under construction'},
 }
